@@ -453,6 +453,36 @@ def check_flatten(case):
     return None
 
 
+def flatten_assembly_audit():
+    """Syntactic obligations on flatten()'s assembly ("one instance per leaf device" rests on them; walk() yields one node
+    per leaf, contracts in c_flatten): (1) `nodes` is bound once, to the whole of walk(m, ...) - `list(walk(..))`, no
+    filter, no slice; (2) the loop that adds instances runs over `nodes` itself; (3) its `add` is unconditional and is
+    the loop's own statement (not under an `if` / `try` / `continue` before it).  -> offenders (empty = holds)"""
+    import ast
+    from pyvc import loader
+    ext = loader.extract("hdl21.flatten:flatten")
+    fn = ext.node if hasattr(ext, "node") else ast.parse(ext.source).body[0]
+    off = []
+    binds = [n for n in ast.walk(fn) if isinstance(n, (ast.Assign, ast.AnnAssign, ast.AugAssign)) and
+             any(isinstance(t, ast.Name) and t.id == "nodes" for t in (n.targets if isinstance(n, ast.Assign) else [n.target]))]
+    whole = lambda v: isinstance(v, ast.Call) and isinstance(v.func, ast.Name) and v.func.id == "list" and len(v.args) == 1 \
+        and isinstance(v.args[0], ast.Call) and isinstance(v.args[0].func, ast.Name) and v.args[0].func.id == "walk"
+    if len(binds) != 1 or not whole(binds[0].value):
+        off.append(("nodes-is-all-of-walk", getattr(binds[0], "lineno", 0) if binds else 0))
+    loops = [n for n in ast.walk(fn) if isinstance(n, ast.For) and any(
+        isinstance(c, ast.Call) and isinstance(c.func, ast.Attribute) and c.func.attr == "add" and
+        any(k.arg == "name" for k in c.keywords) for c in ast.walk(n))]
+    if len(loops) != 1 or not (isinstance(loops[0].iter, ast.Name) and loops[0].iter.id == "nodes"):
+        off.append(("instance-loop-over-nodes", getattr(loops[0], "lineno", 0) if loops else 0))
+    else:
+        first = loops[0].body[0]
+        adds = isinstance(first, (ast.Assign, ast.Expr)) and any(
+            isinstance(c, ast.Call) and isinstance(c.func, ast.Attribute) and c.func.attr == "add" for c in ast.walk(first))
+        if not adds or any(isinstance(n, (ast.Continue, ast.Break)) for n in ast.walk(loops[0])):
+            off.append(("unconditional-add", first.lineno))
+    return off
+
+
 def run(ctx):
     from contracts import c_flatten as cf
     ctx.verify(cf.engine(), cf.VERIFY)
@@ -468,6 +498,8 @@ def run(ctx):
         ctx.lemma(name + " (over walk's separator guards and make_name's contract)", asm, goal, timeout_ms=30000)
     ctx.assumptions.append("flattened-name injectivity is proved for paths of up to 3 instances (arity unrolled); walk() "
                            "itself (a recursive generator) and flatten()'s assembly loops are decided by the bounded part")
+    ctx.frame_audit("hdl21.flatten:flatten/assembly", flatten_assembly_audit(),
+                    "flatten() no longer turns every node walk() yields into one instance of the result", n=3)
     fam = [d for k, d in enumerate(design_family(ctx.tier, ctx.seed)) if ctx.tier == "thorough" or k % 3 == 0]
     cases = itertools.chain(hier_designs(ctx.tier, ctx.seed), flat_top_designs(), portless_leaf_designs(), shared_module_designs(), attribute_named_pin_designs(), sibling_name_designs(), fam)
     ctx.run_bounded("flatten-vs-original", cases, check_flatten,
